@@ -164,12 +164,27 @@ func (rt *runtime) tryCatchEvaluate(inner func() Value) (tryValue Value, isExcep
 				tryValue = caught
 			default:
 				isException = true
-				tryValue = toValue(caught)
+				tryValue = rt.panicValue(caught)
 			}
 		}
 	}()
 
 	return inner(), false
+}
+
+// panicValue is the value a catch clause receives for a Go value that is not a JavaScript
+// exception (a host function panicked with it). A value without a plain conversion (an error,
+// a pointer, a struct) is bridged like any other Go value handed to the script; whatever cannot
+// be bridged either is caught as its text. The conversion must not panic itself: it runs in the
+// deferred function of the try statement, where a panic would skip that statement's catch and
+// finally blocks.
+func (rt *runtime) panicValue(caught interface{}) (value Value) {
+	defer func() {
+		if recover() != nil {
+			value = stringValue(fmt.Sprint(caught))
+		}
+	}()
+	return rt.toValue(caught)
 }
 
 func (rt *runtime) toObject(value Value) *object {
